@@ -11,7 +11,7 @@ THEOREMS = ["C07_canonical", "C07_order", "C07_render_parse", "C07_table_shapes"
 
 
 def run(run, args):
-    n = 400 if run.tier == "quick" else 6000
+    n = (400 if run.tier == "quick" else 6000) * run.scale
     formlib.prepare(run)
     rc, out, _ = make(["model/RenderCheck.vo"])
     if rc != 0:
